@@ -161,3 +161,55 @@ Proof.
   pose proof (zlen_nonneg (filter (fun p => match p with PSR _ _ _ _ _ _ => addressed s p | _ => false end)
                                   (flat_map in_rtcp more))). lia.
 Qed.
+
+(* ---- compressed threads: the k-th call of a segment ---- *)
+Lemma calls_length n e : length (calls n e) = n.
+Proof. revert e; induction n as [|n IH]; intros e; simpl; [reflexivity|]. rewrite IH. reflexivity. Qed.
+
+Lemma wrap_add_mod x d m : 0 <= x < m -> 0 <= d <= m -> wrap_add x d m = (x + d) mod m.
+Proof.
+  intros Hx Hd. unfold wrap_add. cbv zeta. destruct (x + d <? m) eqn:E.
+  - apply Z.ltb_lt in E. rewrite Z.mod_small by lia. reflexivity.
+  - apply Z.ltb_ge in E. assert (G : x + d = (x + d - m) + 1 * m) by lia.
+    rewrite G at 2. rewrite Z.mod_add by lia. rewrite Z.mod_small by lia. reflexivity.
+Qed.
+
+Lemma next_call_bump k e : 0 <= k -> rtp_fields_in_range e -> next_call (bump k e) = bump (k + 1) e.
+Proof.
+  intros Hk. destruct e; cbn [bump next_call rtp_fields_in_range]; intros H; try reflexivity.
+  - destruct H as [H1 H2].
+    rewrite !wrap_add_mod by (try apply Z.mod_pos_bound; lia).
+    rewrite !Zplus_mod_idemp_l.
+    replace (seq + k + 1) with (seq + (k + 1)) by ring.
+    replace (rtpts + 3000 * k + 3000) with (rtpts + 3000 * (k + 1)) by ring.
+    reflexivity.
+  - rewrite !wrap_add_mod by (try apply Z.mod_pos_bound; lia).
+    rewrite !Zplus_mod_idemp_l.
+    replace (seq + k + 1) with (seq + (k + 1)) by ring.
+    reflexivity.
+Qed.
+
+Lemma bump_zero e : rtp_fields_in_range e -> bump 0 e = e.
+Proof.
+  destruct e; cbn [bump rtp_fields_in_range]; intros H; try reflexivity.
+  - destruct H. rewrite Z.mul_0_r, !Z.add_0_r, !Z.mod_small by lia. reflexivity.
+  - rewrite !Z.add_0_r, !Z.mod_small by lia. reflexivity.
+Qed.
+
+Lemma calls_nth_from n e j k :
+  rtp_fields_in_range e -> 0 <= j -> (k < n)%nat ->
+  nth_error (calls n (bump j e)) k = Some (bump (j + Z.of_nat k) e).
+Proof.
+  intros He. revert j k. induction n as [|n IH]; intros j k Hj Hk; [lia|].
+  destruct k as [|k]; simpl.
+  - rewrite Z.add_0_r. reflexivity.
+  - rewrite (next_call_bump j e Hj He). rewrite IH by lia. f_equal. f_equal. lia.
+Qed.
+
+Lemma expand_seg_nth n e k :
+  rtp_fields_in_range e -> (k < Z.to_nat n)%nat ->
+  nth_error (expand_seg (n, e)) k = Some (bump (Z.of_nat k) e).
+Proof.
+  intros He Hk. unfold expand_seg. simpl.
+  rewrite <- (bump_zero e He) at 1. rewrite (calls_nth_from (Z.to_nat n) e 0 k He) by lia. reflexivity.
+Qed.
